@@ -93,7 +93,8 @@ def discover(arg):
                 continue      # output-unit requests (Units:<output>) are stored in the same dictionary
             name = p.Name.strip()
             if isinstance(p, floatParameter):
-                rec = {'t': 'float', 'min': float(p.Min), 'max': float(p.Max), 'default': p.DefaultValue}
+                rec = {'t': 'float', 'min': float(p.Min), 'max': float(p.Max), 'default': p.DefaultValue,
+                       'decl': getattr(p.CurrentUnits, 'value', None) if not isinstance(p.CurrentUnits, str) else p.CurrentUnits}
             elif isinstance(p, intParameter):
                 rng = sorted(int(getattr(x, 'int_value', x)) for x in p.AllowableRange)
                 if not rng:
@@ -134,6 +135,18 @@ def probes_for(name, rec):
             if dflt is not None and float(v) == float(dflt) == -1.0:
                 continue        # the documented "not provided" sentinel
             out.append((repr(float(v)), kind, label))
+        # the same out-of-range quantity written in another catalogue unit (lengths and pressures: the unit types whose conversion works on
+        # the pinned tree) must be rejected like the bare number
+        try:
+            from vf.oracles import units_ref as UR
+            dims = UR.dims(rec.get('decl') or '')
+            if dims and dims[0] in ('length', 'pressure') and hi > 0 and math.isfinite(hi):
+                decl = UR.norm(rec['decl'])
+                alt = next((U for U in UR.LIN[dims[0]] if U != decl and U not in ('mi', 'in', 'kbar')), None)
+                if alt:
+                    out.append((f'{UR.convert(hi * 1.05, decl, alt):.10g} {alt}', 'outside', 'above_max_in_another_unit'))
+        except Exception:  # noqa
+            pass
     else:
         rng = rec['range']
         lo, hi = rng[0], rng[-1]
